@@ -100,6 +100,12 @@ def sorted_model(ex, args, kwargs, st, n):
     if v.pt.kind == 'set':
         tgt = 'builtins.sorted.keyset'
         return call_external(ex, tgt, [v], {}, st, n)
+    if v.pt.kind == 'dictitems' and key is not None and rev is None:
+        lam = key.py[1] if key.pt.kind == 'func' and key.py[0] == 'lambda' else None
+        if lam is None or not (isinstance(lam.body, ast.Subscript) and isinstance(lam.body.value, ast.Name) and lam.body.value.id == lam.args.args[0].arg
+                               and isinstance(lam.body.slice, ast.Constant) and lam.body.slice.value == 1):
+            raise OutOfSubset('sorted(d.items()): only key=lambda v: v[1] is modelled (line %d)' % n.lineno)
+        return call_external(ex, 'builtins.sorted.items_by_value', [v.py], {}, st, n)
     if v.pt.kind == 'list':
         ept = v.pt.args[0]
         if ept.kind == 'tuple' and key is not None:
